@@ -307,9 +307,45 @@ def switches : List String → Nat
   | a :: b :: rest => (if a != b then 1 else 0) + switches (b :: rest)
   | _ => 0
 
+/-- the stage token of a `node` line: `-` | `fromgb` | `del:<tags>` | `gb:<0|1>:<dims>` | `deftag:<k>:<v>` | `evaltag:<k>:<v>` -/
+def parsePre (tok : String) : Option (Bool × Option Stage) :=   -- (grouping done by from().groupBy()?, stage)
+  match tok.splitOn ":" with
+  | ["-"] => some (false, none)
+  | ["fromgb"] => some (true, none)
+  | ["del", l] => do pure (false, some (.delete (← parseList l)))
+  | ["gb", b, l] => do pure (false, some (.groupBy (← b01? b) (← parseList l)))
+  | ["deftag", k, v] => do pure (false, some (.defaultTag (← unesc k) (← unesc v)))
+  | ["evaltag", k, v] => do pure (false, some (.evalTag (← unesc k) (← unesc v)))
+  | _ => none
+
+def stageTok : Option Stage → String
+  | none => "-"
+  | some (.delete l) => s!"del:{renderList l}"
+  | some (.groupBy b l) => s!"gb:{boolTok b}:{renderList l}"
+  | some (.defaultTag k v) => s!"deftag:{esc k}:{esc v}"
+  | some (.evalTag k v) => s!"evaltag:{esc k}:{esc v}"
+
+/-- the structured key an emitted message carries, read back: (by-name flag, name, (dimension, value) pairs) -/
+def parseKey (key : String) : Option GPoint :=
+  match key.splitOn "~" with
+  | [b, n, l] => do
+    let b ← b01? b
+    let name ← if b then unesc n else some ""
+    let pairs ← if l == "-" then some [] else (l.splitOn ",").mapM parseKV
+    pure { byName := b, name := name, tags := pairs, dims := pairs.map (·.1) }
+  | _ => none
+
+/-- two points grouped by measurement, of different measurements, that agree on every group-by tag value -/
+def twinMeasurements (gps : List GPoint) : Bool :=
+  gps.any (fun p => gps.any (fun q => p.byName && q.byName && p.name != q.name && p.dims == q.dims &&
+    p.dims.all (fun d => tagVal p.tags d == tagVal q.tags d)))
+
 def judgeIso (lines : Array String) : Verdict := Id.run do
   let mut cfg : Option (String × Nat × Nat × String × List String) := none
   let mut dupCfg := false   -- the script names a dimension twice
+  let mut pre : Option Stage := none   -- a stateless stage between the groupBy and NODE that rebuilds the group identity
+  let mut fromGb := false              -- grouping configured on from() instead of a groupBy node
+  let mut gps0 : List GPoint := []     -- the points as they leave the groupBy
   let mut pts : List (Pt × GroupID) := []
   let mut gps : List (GPoint × String) := []   -- (point as grouping sees it, its structured key)
   let mut full : Option (List (ObsMsg × String)) := none
@@ -317,7 +353,7 @@ def judgeIso (lines : Array String) : Verdict := Id.run do
   for l in lines do
     let (opT, o) := splitObs (tokens l)
     match opT with
-    | ["node", kind, p1, p2, b, dims] =>
+    | "node" :: kind :: p1 :: p2 :: b :: dims :: rest =>
       let some p1 := p1.toNat? | return .badop l
       let some p2 := p2.toNat? | return .badop l
       if !(["0", "1", "2"].contains b) then return .badop l
@@ -325,6 +361,12 @@ def judgeIso (lines : Array String) : Verdict := Id.run do
       -- the dimension list every point of the run carries: the model of determineTagNames (sorted, each dimension once)
       cfg := some (kind, p1, p2, b, determineTagNames dims [])
       dupCfg := dims.eraseDups.length < dims.length
+      match rest with
+      | [] => pure ()
+      | [tok] =>
+        let some (fg, st) := parsePre tok | return .badop l
+        fromGb := fg; pre := st
+      | _ => return .badop l
     | ["pt", name, tags, fields, time] =>
       let some (_, _, _, mode, dims) := cfg | return .badop l
       let some name := unesc name | return .badop l
@@ -333,9 +375,13 @@ def judgeIso (lines : Array String) : Verdict := Id.run do
       let some tags := parseTags tags | return .badop l
       let some v := parseV fields | return .badop l
       let some time := time.toInt? | return .badop l
-      pts := pts ++ [({ name := name, key := gkey b name dims tags, v := v, time := time,
-                        bid := toGroupID b name tags dims.eraseDups }, toGroupID b name tags dims)]
-      gps := gps ++ [({ byName := b, name := name, tags := tags, dims := dims }, gkey b name dims tags)]
+      -- the point as it leaves the groupBy, and as it reaches NODE behind the stage (model of the stage)
+      let p0 : GPoint := { byName := b, name := name, tags := tags, dims := dims }
+      let q := applyStages pre.toList p0
+      gps0 := gps0 ++ [p0]
+      pts := pts ++ [({ name := q.name, key := gkey q.byName q.name q.dims q.tags, v := v, time := time,
+                        bid := toGroupID q.byName q.name q.tags q.dims.eraseDups }, toGroupID q.byName q.name q.tags q.dims)]
+      gps := gps ++ [(q, gkey q.byName q.name q.dims q.tags)]
     | ["full"] =>
       match parseRun o with
       | .ok ms => full := some ms
@@ -355,6 +401,21 @@ def judgeIso (lines : Array String) : Verdict := Id.run do
   -- the property, on what the implementation emitted
   let fullMsgs := fullR.map (·.1)
   let ptsOnly := pts.map (·.1)
+  -- (1) identity of every EMITTED message: the grouping it carries is the configured one as it must be behind the stage
+  -- (by measurement survives every node that does not regroup), and equal ids <=> same group among the emitted messages
+  let inGroupings := (gps0.map (fun p => (p.byName, p.dims.eraseDups))).eraseDups
+  let mut emitted : List (String × GPoint × String) := []
+  for m in fullMsgs do
+    if emitted.any (fun e => e.1 == m.key) then continue
+    let some gp := parseKey m.key | return .badop s!"unparsable group key {m.key}"
+    let some id := ((m.tok.splitOn "|").getLast?).bind unesc | return .badop s!"no group id in {m.tok}"
+    if !(inGroupings.any (fun g => groupingOkAfter pre g (gp.byName, gp.dims))) then
+      return .specfail "group-by-tags-as-configured" s!"node {kind}: an emitted message is grouped byName={boolTok gp.byName} dims={renderList gp.dims}; configured {inGroupings.map (fun g => s!"byName={boolTok g.1} dims={renderList g.2}")} stage {stageTok pre}"
+    emitted := emitted ++ [(m.key, gp, id)]
+  let emIds := emitted.map (fun e => (e.2.1, e.2.2))
+  if let some (.specfail c d) := identityVerdict emIds then return .specfail c s!"emitted by node {kind}: {d}"
+  for (p, i) in emIds do
+    if modelId p != i then return .mismatch s!"node {kind}: emitted message {describe p} carries id {esc i}, ToGroupID of its own name/tags/dimensions is {esc (modelId p)}"
   -- behind a union the arrival order at the node is the union's, not the input's: no prediction of the full output
   let modelFull : Option (List String) := if mode == "2" then none else match modelKind? kind p1 p2 with
     | some mk => if modelApplies mk ptsOnly then some (runModel mk (pts.map (fun pg => Item.point pg.2 pg.1))) else none
@@ -376,6 +437,29 @@ def judgeIso (lines : Array String) : Verdict := Id.run do
   if (distinctKeys keys).length ≥ 3 then brs := addBr brs "groups>=3"
   if mode == "2" then brs := addBr brs "mixed-byname-union"
   if dupCfg then brs := addBr brs "duplicate-dimension"
+  if fromGb then brs := addBr brs "head-from-groupby"
+  let finals := gps.map (·.1)
+  if twinMeasurements finals then brs := addBr brs "byname-twin-measurements"
+  if (distinctKeys (gps0.map (fun p => gkey p.byName p.name p.dims p.tags))).length > (distinctKeys keys).length then
+    brs := addBr brs "stage-merges-groups"
+  match pre with
+  | none => pure ()
+  | some (.delete del) =>
+    let cfgDims := (gps0.headD default).dims
+    if checkForDeletedDimension del cfgDims then
+      brs := addBr brs (if (deleteDimensions del false cfgDims).2.isEmpty then "stage-delete-last-dimension" else "stage-delete-dimension")
+      if twinMeasurements finals then brs := addBr brs "stage-delete-dimension+byname-twin"
+    else brs := addBr brs "stage-delete-other-tag"
+  | some (.groupBy b nd) =>
+    let cfgDims := (gps0.headD default).dims
+    brs := addBr brs (if nd.all (cfgDims.contains ·) then "stage-groupby-coarser" else "stage-groupby-finer")
+    if b && gps0.any (fun p => !p.byName) then brs := addBr brs "stage-groupby-adds-byname"
+    if twinMeasurements finals then brs := addBr brs "stage-groupby+byname-twin"
+  | some (.defaultTag k _) =>
+    brs := addBr brs (if gps0.any (fun p => p.dims.contains k) then "stage-default-tag-dimension" else "stage-default-other-tag")
+    if gps0.any (fun p => p.dims.contains k && tagVal p.tags k == "") then brs := addBr brs "stage-default-tag-applied"
+  | some (.evalTag k _) =>
+    brs := addBr brs (if gps0.any (fun p => p.dims.contains k) then "stage-eval-tag-dimension" else "stage-eval-other-tag")
   if switches keys ≥ 3 then brs := addBr brs "interleaved"
   if (distinctKeys (pts.map (·.2))).length < (distinctKeys keys).length then brs := addBr brs "id-collision-in-run"
   if ptsOnly.any (fun p => p.v == .missing) then brs := addBr brs "field-missing"
